@@ -234,6 +234,14 @@ class SheetGen:
                 return ""
             if len(vals) == 1:
                 return vals[0]
+            if vals[-1] == "" and self.rng.random() < 0.5:
+                # the SHORT spelling of the same list: trailing blanks left out (a list shorter than the row's edges
+                # leaves the remaining edges blank; a one-element list keeps its separator — `x;` — so that it is not
+                # the scalar `x`, which would stand for every edge)
+                short = list(vals)
+                while short and short[-1] == "":
+                    short.pop()
+                return ";".join(short) + (";" if len(short) == 1 else "")
             s = ";".join(vals)
             if vals[-1] == "":
                 s += ";"
